@@ -37,6 +37,8 @@ CLAIMED = {
          "Exploration on random grammars with short inputs (all 6 lookahead values x 9 debug levels) and inputs of up to 150/400 tokens made of repeated fragments (found F10, F28). The ANSI C grammar is covered by the thorough tier only if the tokenised fixture could be built."),
  'C17': ("fault injection with exhaustive enumeration of the failing allocation request per scenario (library malloc/calloc/realloc redirected by objcopy to failing wrappers), each k in a fresh child under ASan/UBSan with poisoned fresh memory", "6.C17",
          "Fault enumeration: every k in 1..K for generated scenarios (create / define by callbacks or text / one or two parses, three tree-allocator modes). Found F23, F36, F37, F38. One failure per run, as the property states."),
+ 'C18': ("metamorphic / scaling test on generated inputs of deterministic grammar families: machine-independent work units (allocator bytes via redirected malloc, the library's hash-table search and collision counters, distinct sets and set cores via hook H4) for n and 2n", "6.C18",
+         "Exploration: empirical growth ratios with calibrated head-room on three grammar families and three lookahead levels, n up to 32k quick / 256k thorough; no complexity proof. The ANSI C family is not included (see DESIGN)."),
  'C19': ("model-based testing of operation sequences against std::set / byte-vector models, invariants checked after every operation, C containers through a C shim and C++ classes directly, ASan", "6.C19",
          "Exploration with sizes around the segment and growth thresholds; all six containers equally (found F24b; F24 through C16)."),
  'C08': ("reference minimum over all simple recoveries computed on reference Earley sets", "6.C08", "Exploration; inequality only, as the property states; meaningful together with C07's accounting clause."),
